@@ -46,6 +46,8 @@ type Result struct {
 	BoxProblem string // "" or "box-not-finite" / "box-not-ordered"
 	Interior   int    // sampled interior points (non-empty solid when > 0)
 	Probes     int    // points evaluated outside the box
+	Interior3  []v3.Vec // the interior samples (3D run)
+	Interior2  []v2.Vec // the interior samples (2D run)
 }
 
 func finite(xs ...float64) bool {
@@ -93,6 +95,7 @@ func Probe3(t *rapid.T, s sdf.SDF3, S float64, leak func(p v3.Vec, value, outsid
 		}
 	}
 	res.Interior = len(interior)
+	res.Interior3 = interior
 	nSh := rapid.IntRange(60, 200).Draw(t, "nsh")
 	for i := 0; i < nSh; i++ {
 		k := 1 + 3*g.F(0, 1).Draw(t, fmt.Sprintf("sk%d", i))
@@ -183,6 +186,7 @@ func Probe2(t *rapid.T, s sdf.SDF2, S float64, leak func(p v2.Vec, value, outsid
 		}
 	}
 	res.Interior = len(interior)
+	res.Interior2 = interior
 	nSh := rapid.IntRange(60, 200).Draw(t, "nsh")
 	for i := 0; i < nSh; i++ {
 		k := 1 + 3*g.F(0, 1).Draw(t, fmt.Sprintf("sk%d", i))
